@@ -111,6 +111,8 @@ def invoking_ruleset_rule(ctx):
 
 
 def run(ctx):
+    from .C11 import instance_skipped_only_for_documented_reasons
+    instance_skipped_only_for_documented_reasons(ctx)
     from .C12 import ruleset_settings_text
     ruleset_settings_text(ctx)
     invoking_ruleset_rule(ctx)
